@@ -31,6 +31,30 @@ CHECKS = {
               'expansion LP solved directly with HiGHS demands equality for continuous models too.'),
         note=('GridOpt is exact only on the grid; the two-sided verdict for continuous models rests on the float LP oracle '
               '(tolerance 2e-6 relative, x10 margin before a violation). Same bounds as C01.')),
+    'C03': dict(
+        level='model_checking',
+        technique='TLC-generated dro programs (DroSem.tla) replayed into rsome.dro; returned decisions validated by TLC under every member distribution and at every support vertex; primal moment LP as float oracle',
+        design_ref='DESIGN.md 2.7, 5/C03',
+        text=('DroSem.tla defines event-wise ambiguity sets on a grid-exact family (supports with vertex lists incl. singletons, Wasserstein-style '
+              '1-norm balls, mixed kinds per scenario; five probability sets with rational vertices; expectation sets on the full event and on '
+              'sub-events with equality and box means) and two model forms (E(maxof) objective; event-wise / affinely adaptive decision with rows '
+              'for every realisation; optional E-constraint). TLC enumerates programs and their member distributions (membership checked in exact '
+              'rationals); every program is built and solved through the API; TLC then checks every row at every support vertex and the objective and '
+              'E-constraints under every member; the primal moment LP (HiGHS, independent of rsome) gives the exact worst-case expectation at the '
+              'returned solution.'),
+        note=('Members are point-mass conditionals at support vertices (a subset of the set): necessary condition decided exactly by TLC; the complete '
+              '"for every distribution" verdict rests on the moment LP (valid because objectives are convex piecewise affine in z and supports are '
+              'polytopes). KL / norm-2 probability sets and lifted auxiliary random variables are not in the family yet.')),
+    'C04': dict(
+        level='model_checking',
+        technique='exact grid optimum by TLC on the no-expectation sub-family + cutting-plane solution of the primal moment problem vs the optimum reported by rsome.dro',
+        design_ref='DESIGN.md 2.7, 5/C04',
+        text=('Without expectation information the worst case puts each scenario on its worst vertex and the probability on a vertex of the '
+              'probability set, so TLC computes the exact optimum over the integer decision grid (equality demanded for integer decisions, one-sided '
+              'for continuous). For all programs the harness solves the true inf-sup under the declared event-wise affine adaptation by cutting '
+              'planes around the primal moment LP and demands equality with the reported optimum; sample-average (singleton supports, fixed p) and '
+              'single-scenario instances are part of the family.'),
+        note='Equality for programs with expectation sets rests on the float oracle (5e-6 relative, x10 margin). Same family bounds as C03.'),
     'C08': dict(
         level='model_checking',
         technique='TLC lattice weak duality on StdForm.tla (transcribed DualLP and the real primal/dual pair) + primal+dual=0 through the solver interfaces',
